@@ -34,6 +34,11 @@ class Untranslatable(Exception):
     pass
 
 
+class UnboundName(Untranslatable):
+    """A local that is assigned somewhere in the function is read on a path where it is not bound:
+    Python raises UnboundLocalError there."""
+
+
 # --------------------------------------------------------------------------- types
 INT, NUM, BOOL, DATE, ODATE, NONE, TUP, ONUM = 'int', 'num', 'bool', 'date', 'odate', 'none', 'tuple', 'onum'
 
@@ -84,11 +89,12 @@ class Dialect:
             if fr.denominator == 1:
                 return f'({fr.numerator} : Rat)'
             return f'(({fr.numerator} : Rat) / {fr.denominator})'
+        if self.kind == 'real' and float(v).is_integer() and abs(v) < 1e15:
+            iv = int(v)
+            return f'(-({-iv} : ℝ))' if iv < 0 else f'({iv} : ℝ)'
         r = repr(float(v))
         if 'e' in r or 'E' in r:
             mant, exp = r.lower().split('e')
-            if '.' not in mant:
-                mant += '.0'
             r = f'{mant}e{int(exp)}'
         if r.startswith('-'):
             return f'(-({r[1:]} : {self.num}))'
@@ -196,6 +202,8 @@ class Translator:
                 return env[n.id]
             if n.id in self.consts:
                 return self.const_val(n.id, self.consts[n.id])
+            if n.id in env.get('__assigned__', ()):
+                raise UnboundName(n.id)
             raise Untranslatable(f'unknown name {n.id}')
         if isinstance(n, ast.Attribute):
             dn = self.dotted(n)
@@ -542,8 +550,15 @@ class Translator:
                     env2[var] = Val(name, ea.t, nz=(ea.nz and eb.nz))
                     body = f'let {name} := if {c.s} then {ea.s} else {eb.s}\n' + self.block(rest, env2, spec, fallible)
                     return self.wrap_errs(c.errs, body, fallible)
-            a = self.block(st.body + ([] if t_term else rest), env_t, spec, fallible)
-            b = self.block((st.orelse or []) + ([] if f_term else rest), env_f, spec, fallible)
+            def branch(stmts_, env_):
+                try:
+                    return self.block(stmts_, env_, spec, fallible)
+                except UnboundName as e:
+                    if not fallible:
+                        raise Untranslatable(f'possibly unbound local {e} in a function declared infallible')
+                    return '.error .other  -- UnboundLocalError: ' + str(e)
+            a = branch(st.body + ([] if t_term else rest), env_t)
+            b = branch((st.orelse or []) + ([] if f_term else rest), env_f)
             body = f'if {c.s} then\n{textwrap.indent(a, "  ")}\nelse\n{textwrap.indent(b, "  ")}'
             return self.wrap_errs(c.errs, body, fallible)
         raise Untranslatable(f'{spec.py_name}: statement {type(st).__name__}: {ast.unparse(st)[:60]}')
@@ -644,6 +659,8 @@ class Translator:
         for ln, t in spec.extra_params:
             params.append((ln, t))
         body_stmts = list(fnode.body)
+        env['__assigned__'] = {t.id for x in ast.walk(fnode) if isinstance(x, (ast.Assign, ast.AugAssign, ast.AnnAssign))
+                               for t in (x.targets if isinstance(x, ast.Assign) else [x.target]) if isinstance(t, ast.Name)}
         if spec.bool_chain:
             body = self.bool_chain(body_stmts, env, spec)
             fallible = False
@@ -655,7 +672,7 @@ class Translator:
             try:
                 body = self.block(body_stmts, env, spec, fallible)
             except Untranslatable as e:
-                if 'declared infallible' in str(e) and force_fallible is None:
+                if 'declared infallible' in str(e) and force_fallible is None and not fallible:
                     fallible = True
                     body = self.block(body_stmts, env, spec, True)
                 else:
